@@ -202,6 +202,8 @@ func (h *Header) Unmarshal(buf []byte) (n int, err error) { //nolint:gocognit,cy
 			h.Extensions = append(h.Extensions, extension)
 			n += len(h.Extensions[0].payload)
 		}
+	} else {
+		h.ExtensionProfile = 0
 	}
 
 	return n, nil
